@@ -31,6 +31,10 @@ def var_bounds(kinds, tight=False):
         elif k == "fixed":
             v = 0.5 if j % 2 == 0 else -0.25
             lb.append(v); ub.append(v)
+        elif k == "bigbox":      # bounds of large magnitude (absolute activity tolerances must stay absolute)
+            lb.append(-1.0e6); ub.append(2.0e6)
+        elif k == "bigupper":
+            lb.append(NINF); ub.append(1.0e6)
         else:
             raise ValueError(k)
     return lb, ub
@@ -119,6 +123,9 @@ def row(fn, kind, n, idx=0):
         r["lb"], r["ub"] = NINF, centre + 0.5
     elif kind == "ranged":
         r["lb"], r["ub"] = centre - 0.5, centre + 0.25
+    elif kind == "narrow":   # ranged row of large magnitude whose width is tiny relative to it (still a range, not an equation)
+        r["b"] = r.get("b", 0.0) + 1000.0
+        r["lb"], r["ub"] = centre + 1000.0, centre + 1000.004
     else:
         raise ValueError(kind)
     return r
